@@ -404,11 +404,19 @@ func init() {
 		if r.Chance(1, 5) {
 			ws.Foreign = append(ws.Foreign, lcw.Entry{Path: lcw.B(cfg.Layers + "/" + t.Name + "~removed/keep.txt"), Kind: "f", Data: "old"})
 		}
-		if r.Chance(1, 4) { // a pristine layer: exactly what add creates
+		if r.Chance(1, 3) { // a pristine layer: exactly what add creates
 			for i := range ws.Layers {
 				if ws.Layers[i].Name == t.Name {
 					ws.Layers[i].Files, ws.Layers[i].Minimal, ws.Layers[i].Mountpoints = nil, false, false
 					ws.Layers[i].HasPackages, ws.Layers[i].HasGen = false, false
+					if r.Chance(1, 2) { // ... except for one file in a place that is easy to overlook
+						if ws.Layers[i].Base != "" {
+							ws.Layers[i].Files = []string{r.Pick([]string{"overlayfs/workdir/notes.txt", "overlayfs/workdir/work/x",
+								"overlayfs/upperdir/.hidden", "overlayfs/extra", "build/.keep"})}
+						} else {
+							ws.Layers[i].Files = []string{r.Pick([]string{"build/root/.profile", "build/.keep", "stage3.tar.xz", "build/root/.bashrc.orig"})}
+						}
+					}
 				}
 			}
 		}
